@@ -167,6 +167,89 @@ fn judge_macro(c: &MacroCase, l: &mut Local) {
     l.sample(|| json!({"family": "macro", "program": msrc, "inlined": isrc}));
 }
 
+// ---- value-dependent inner instructions: certificate by search (DESIGN §4 C17) -------------------------
+
+fn cascade_rules() -> Vec<RuleSrc> {
+    let mut r = base_rules();
+    r.push(RuleSrc::new("jmp {a}", "{ assert(a < 4), 0xa @ a`4 }"));
+    r.push(RuleSrc::new("jmp {a}", "0xb0 @ a`8"));
+    r
+}
+
+const CASCADE_FORMS: [&str; 9] = ["nop", "ld {p}", "jmp {p}", "jmp {q}", "jmp l", "jmp G", "jmp H", "jmp $", "jr l"];
+
+/// The inner label values are not observable, so nothing is predicted: every assignment of a
+/// candidate size (8 or 16 bits) to each inner `jmp` is tried on the hand-inlined program; the macro
+/// result is accepted iff some assignment is self-consistent (every instruction re-selects exactly
+/// that size as its unique smallest encoding) and reproduces the emitted bits exactly.
+fn judge_cascade(body: &[String], label_pos: usize, args: (&'static str, &'static str), prefix: &'static [&'static str], budget: usize, l: &mut Local) {
+    let c = MacroCase { body: body.to_vec(), label_pos, typed: false, args, prefix, suffix: SUFFIXES[0], nest: 0 };
+    let msrc = render_macro(&c).replace("    nop => 0x00\n", "    nop => 0x00\n    jmp {a} => { assert(a < 4), 0xa @ a`4 }\n    jmp {a} => 0xb0 @ a`8\n");
+    let mut inl = inlined_prog(&c);
+    inl.ruledefs = vec![RuleDefSrc { name: None, sub: false, rules: cascade_rules() }];
+    l.eval();
+    let mo = run::assemble_str(&msrc, &Opts::iters(budget));
+    l.nontrivial(&(&msrc, budget));
+    if mo.panicked.is_some() {
+        l.violation(Violation { property: ID, key: "C17:panic".into(), what: format!("panic: {}", msrc.replace('\n', " / ")), case: json!({"family": "cascade-macro", "program": msrc, "observed": mo.summary()}) });
+        return;
+    }
+    if !mo.success() {
+        l.class(if mo.failure() { "cascade-macro-not-converged-or-rejected" } else { "cascade-macro-unclean" });
+        if !mo.failure() {
+            l.violation(Violation { property: ID, key: "C17:unclean-outcome".into(), what: "neither clean success nor clean failure".into(), case: json!({"family": "cascade-macro", "program": msrc, "observed": mo.summary()}) });
+        }
+        return;
+    }
+    l.class("cascade-macro-ok");
+    // instruction items of the inlined program and which of them are value-dependent
+    let instrs: Vec<&String> = inl.items.iter().filter_map(|i| if let Item::Instr(s) = i { Some(s) } else { None }).collect();
+    let fixed_size = |s: &str| -> Option<usize> {
+        if s.starts_with("jmp ") {
+            None
+        } else if s == "nop" {
+            Some(8)
+        } else if s.starts_with("ldw ") || s.starts_with("jp ") {
+            Some(24)
+        } else {
+            Some(16)
+        }
+    };
+    let free: Vec<usize> = instrs.iter().enumerate().filter(|(_, s)| fixed_size(s).is_none()).map(|(i, _)| i).collect();
+    let mut certified = false;
+    let mut tried = 0;
+    for mask in 0u32..(1 << free.len()) {
+        let mut sizes: Vec<usize> = instrs.iter().map(|s| fixed_size(s).unwrap_or(8)).collect();
+        for (k, fi) in free.iter().enumerate() {
+            sizes[*fi] = if mask & (1 << k) != 0 { 16 } else { 8 };
+        }
+        tried += 1;
+        match assemble_with(&inl, Some(&sizes)) {
+            RefOut::Ok(ok) => {
+                if ok.bits == mo.bits {
+                    certified = true;
+                    break;
+                }
+            }
+            RefOut::Unspec(_) => {
+                l.unspecified += 1;
+                return;
+            }
+            RefOut::Error(_) => {}
+        }
+    }
+    l.traces_validated += 1;
+    l.count("size_assignments_tried", tried);
+    if !certified {
+        l.violation(Violation {
+            property: ID,
+            key: "C17:macro-result-is-not-a-consistent-solution-of-the-inlined-program".into(),
+            what: format!("no self-consistent size assignment of the inlined block reproduces the macro's bits [iters={}]: {}", budget, msrc.replace('\n', " / ")),
+            case: json!({"family": "cascade-macro", "program": msrc, "inlined": inl.render(), "budget": budget, "observed": mo.summary()}),
+        });
+    }
+}
+
 // ---- functions --------------------------------------------------------------------------------------
 
 fn fn_trees() -> Vec<E> {
@@ -405,6 +488,25 @@ pub fn run(ctx: &Ctx) -> Report {
             judge_macro(&c, l);
         }));
     }
+    // value-dependent inner instructions: certificate by search
+    let nc = CASCADE_FORMS.len() as u64;
+    let blen: u32 = if ctx.thorough { 3 } else { 2 };
+    let nbody = nc.pow(blen);
+    let budgets = [3usize, 10, 30];
+    let radices_c = [nbody, (blen as u64) + 1, ARGS.len() as u64 - 1, PREFIXES.len() as u64, budgets.len() as u64];
+    rep.absorb(par_run(product(&radices_c), |i, l| {
+        let d = decode(i, &radices_c);
+        let mut bi = d[0];
+        let mut body = vec![];
+        for _ in 0..blen {
+            body.push(CASCADE_FORMS[(bi % nc) as usize].to_string());
+            bi /= nc;
+        }
+        if !uses_l(&body) && d[1] != 0 {
+            return;
+        }
+        judge_cascade(&body, d[1] as usize, ARGS[d[2] as usize], PREFIXES[d[3] as usize], budgets[d[4] as usize], l);
+    }));
     // functions
     let trees = fn_trees();
     let nt = trees.len() as u64;
@@ -420,7 +522,7 @@ pub fn run(ctx: &Ctx) -> Report {
     rep.extra("inner_forms", json!(nf));
     rep.extra("function_trees", json!(nt));
     rep.assumptions = vec!["arguments are substituted textually into asm blocks (the repository's expr_asm tests pin this); typed parameters may additionally reject an out-of-range argument at the call site".into(), "outer programs use no dot-local labels, because an inlined block label would change their scope".into()];
-    for c in ["inlined-ok", "inlined-rejected", "macro-with-local-label-ok", "function", "recursion-ok", "recursion-limit-error", "unbounded-recursion-error"] {
+    for c in ["inlined-ok", "inlined-rejected", "macro-with-local-label-ok", "cascade-macro-ok", "function", "recursion-ok", "recursion-limit-error", "unbounded-recursion-error"] {
         rep.require_class(c);
     }
     rep
